@@ -26,7 +26,7 @@ Inductive node :=
 | Probe | Effect (n : nat) | Throw | Rec
 | Call (body : list node)
 | Try (body cat fin : list node) (hc hf : bool)
-| ForOf (id : nat) (next : list node) (n : nat) (body : list node)
+| ForOf (id : nat) (next : list node) (n : nat) (body : list node) (ret : option (list node))
 | Scope (body : list node)
 | RefCall (body : list node)
 | Getter (body : list node)
@@ -40,6 +40,10 @@ Inductive node :=
 | NRun (swallow : bool) (body : list node)
 | NTry (acts : list node)
 | NForOf (id : nat) (next : list node) (n : nat) (acts : list node).
+
+(* an iterator record on the iterator stack: the iterator's identity and its return() method: [Some body] = a JS
+   function (its body ends with the effect that logs the close), [None] = a Go function that only logs the close *)
+Definition irec := (nat * option (list node))%type.
 
 Inductive job := JThen (body : list node) | JAsync (seg : list node).
 
@@ -55,7 +59,7 @@ Definition snap := (Z * Z * Z * bool * nat * nat * nat * nat * bool)%type.
 
 Record state := mkSt {
   sp : Z; sb : Z; args : Z; prg : bool; stash : nat;
-  cs : list ctx; ts : list tframe; its : list nat; refs : nat;
+  cs : list ctx; ts : list tframe; its : list irec; refs : nat;
   jq : list job; intr : bool; log : list nat; pcount : nat; trace : list snap; leaked : list nat }.
 
 Definition init : state := mkSt 0 (-1) 0 false 0 [] [] [] 0%nat [] false [] 0 [] [].
@@ -97,22 +101,22 @@ Definition new_frame (m c f : bool) s : tframe :=
 Definition push_try (m c f : bool) s := set_ts (new_frame m c f s :: ts s) s.
 Definition pop_try s := set_ts (tl (ts s)) s.
 
-(* ---- restoreStacks (vm.go:777) closes the iterators of the dropped items (top first) and truncates both stacks;
-   dropStacks (used for an uncatchable payload, ex == nil) only truncates *)
+(* ---- restoreStacks (vm.go:777) walks the tail of the iterator stack top first, calls return() on every record and only
+   THEN truncates both stacks; dropStacks (uncatchable payload, ex == nil) only truncates.  The walk runs script code, so it
+   is part of [raise] below ([close_phase]); the pure part here is the truncation and the register restore. *)
 Definition close_ev (id : nat) : nat := (1000 + id)%nat.
-Definition restore_stacks (close : bool) (iterLen refLen : nat) s :=
-  let dropped := firstn (length (its s) - iterLen) (its s) in
-  set_refs (Nat.min refLen (refs s)) (set_its (low iterLen (its s))
-    (set_log (if close then log s ++ map close_ev dropped else log s) s)).
+Definition restore_stacks (iterLen refLen : nat) s :=
+  set_refs (Nat.min refLen (refs s)) (set_its (low iterLen (its s)) s).
 
-(* the register part of handleThrow's restore at frame [tf] (vm.go:809-818) *)
-Definition restore_at (close : bool) (tf : tframe) s :=
+(* the register part of handleThrow's restore at frame [tf] (vm.go:809-818): call stack, frame registers, sp, scope *)
+Definition restore_regs (tf : tframe) s :=
   let s1 := if Nat.ltb (t_csl tf) (length (cs s))
             then match nth_error (cs s) (length (cs s) - t_csl tf - 1) with
                  | Some c => set_cs (low (t_csl tf) (cs s)) (set_args (c_args c) (set_sb (c_sb c) (set_prg (c_prg c) s)))
                  | None => s end
             else s in
-  restore_stacks close (t_iter tf) (t_ref tf) (set_stash (t_stash tf) (set_sp (t_sp tf) s1)).
+  set_stash (t_stash tf) (set_sp (t_sp tf) s1).
+Definition restore_at (tf : tframe) s := restore_stacks (t_iter tf) (t_ref tf) (restore_regs tf s).
 
 Inductive hres := HCatch | HFin.
 Inductive outcome :=
@@ -120,6 +124,8 @@ Inductive outcome :=
 | OCaught (i : nat) (h : hres) (p : payload)    (* JS level: handler of try frame number i (from the bottom) gets control *)
 | OUnwound (p : payload)                        (* JS level: reached a marker frame (or the bottom) *)
 | OPanic (p : payload)                          (* Go level: panic in flight *)
+| OEscaped (p : payload)                        (* JS level: a panic left handleThrow itself (raised inside an iterator's
+                                                   return()) and leaves the run loop without unwinding to its marker *)
 | OStuck.                                       (* out of fuel / tree and stacks out of step *)
 
 Definition skippable (p : payload) (tf : tframe) : bool :=
@@ -132,7 +138,7 @@ Fixpoint handle_loop (p : payload) (fr : list tframe) (s : state) : state * outc
   | tf :: rest =>
       if skippable p tf then handle_loop p rest s
       else
-        let s1 := restore_at (catchable p) tf s in
+        let s1 := restore_at tf s in
         if t_marker tf then (set_ts (tf :: rest) s1, OUnwound p)
         else if t_catch tf then
           (set_ts (mkTf (t_csl tf) (t_iter tf) (t_ref tf) (t_sp tf) (t_stash tf) false false (t_fin tf) :: rest) (add_sp 1 s1),
@@ -142,6 +148,13 @@ Fixpoint handle_loop (p : payload) (fr : list tframe) (s : state) : state * outc
            OCaught (length rest) HFin p)
   end.
 Definition handle_throw (p : payload) (s : state) : state * outcome := handle_loop p (ts s) s.
+
+(* the frame handleThrow will stop at *)
+Fixpoint target (p : payload) (fr : list tframe) : option (tframe * list tframe) :=
+  match fr with
+  | [] => None
+  | tf :: rest => if skippable p tf then target p rest else Some (tf, rest)
+  end.
 
 Definition lookup_fault (faults : list (nat * fkind)) (k : nat) : option fkind :=
   match find (fun x => Nat.eqb (fst x) k) faults with Some x => Some (snd x) | None => None end.
@@ -164,7 +177,8 @@ Definition host_panic_exit (s : state) : state :=
     (if fixed then set_jq [] s else match jq s with [] => s | _ => deviate 22 s end)
   else s.
 
-Definition raise (p : payload) (s : state) := handle_throw p s.
+(* handleThrow for a payload that closes no iterator (uncatchable), or where no iterator record can be pending *)
+Definition raise0 (p : payload) (s : state) := handle_throw p s.
 
 (* a sequence of native actions: stops at the first panic *)
 Fixpoint run_acts (ex : node -> state -> state * outcome) (ns : list node) (s : state) : state * outcome :=
@@ -181,7 +195,7 @@ Fixpoint run_acts (ex : node -> state -> state * outcome) (ns : list node) (s : 
 
 (* the instructions of a run loop: vm.run() polls the interrupt flag before every instruction *)
 Fixpoint run_items (ex : node -> state -> state * outcome) (ns : list node) (s : state) : state * outcome :=
-  if intr s then raise PIntr s else
+  if intr s then raise0 PIntr s else
   match ns with
   | [] => (s, ONorm)
   | n :: r =>
@@ -198,6 +212,7 @@ Definition loop_out (r : state * outcome) : state * outcome :=
   match r with
   | (s, ONorm) => (s, ONorm)
   | (s, OUnwound p) => (s, OPanic p)
+  | (s, OEscaped p) => (s, OPanic p)
   | (s, _) => (s, OStuck)
   end.
 
@@ -230,6 +245,52 @@ Definition vm_try (f : state -> state * outcome) (s : state) : state * outcome :
   | (s2, _) => (s2, OStuck)
   end.
 
+(* restoreStacks' walk: iterTail is captured once; every record's return() is called inside vm.try (a JS exception thrown
+   by return() is dropped); the iterator stack is NOT yet truncated, so iteration inside return() pushes above the tail *)
+Fixpoint close_items (ex : node -> state -> state * outcome) (items : list irec) (s : state) : state * outcome :=
+  match items with
+  | [] => (s, ONorm)
+  | (id, None) :: r => close_items ex r (set_log (log s ++ [close_ev id]) s)
+  | (id, Some body) :: r =>
+      match vm_try (reentry ex 0 body) s with
+      | (s1, ONorm) | (s1, OUnwound _) => close_items ex r s1
+      | (s1, OPanic p') => (s1, OPanic p')
+      | (s1, _) => (s1, OStuck)
+      end
+  end.
+
+(* handleThrow up to and including restoreStacks' walk, for a JS exception: skipped frames popped, registers restored
+   at the target frame, the dropped iterator records closed top first *)
+Definition close_phase (ex : node -> state -> state * outcome) (p : payload) (s : state) : state * outcome :=
+  if catchable p then
+    match target p (ts s) with
+    | None => (s, ONorm)
+    | Some (tf, rest) =>
+        let s1 := set_ts (tf :: rest) (restore_regs tf s) in
+        close_items ex (firstn (length (its s1) - t_iter tf) (its s1)) s1
+    end
+  else (s, ONorm).
+
+(* the effects of [s1] (log, queue, flag, counters) on the registers and stacks of [s] *)
+Definition with_regs_of (s s1 : state) : state :=
+  mkSt (sp s) (sb s) (args s) (prg s) (stash s) (cs s) (ts s) (its s) (refs s)
+       (jq s1) (intr s1) (log s1) (pcount s1) (trace s1) (leaked s1).
+
+(* handleThrow.  [inrec]: it runs in the deferred recover of runTryInner (the exception arrived as a Go panic) rather
+   than inside an instruction (vm.throw).  An uncatchable panic raised inside a return() call leaves handleThrow: inside
+   an instruction it is handled again by the same run loop; out of the deferred recover it leaves the run loop without
+   unwinding to its marker (finding F23; the repaired algorithm handles it in the same loop).
+   Modelling simplification: the second handleThrow starts from the partially unwound state; since try frames are
+   ordered by call depth it lands where it would from the state before the partial unwinding, which is what the model
+   applies it to (checked by the correspondence like everything else). *)
+Definition raise (ex : node -> state -> state * outcome) (inrec : bool) (p : payload) (s : state) : state * outcome :=
+  match close_phase ex p s with
+  | (s1, ONorm) => handle_throw p s1
+  | (s1, OPanic p') =>
+      if inrec && negb fixed then (deviate 23 s1, OEscaped p') else handle_throw p' (with_regs_of s s1)
+  | (s1, _) => (s1, OStuck)
+  end.
+
 Definition leave_abrupt s := set_intr false (set_jq [] s).
 
 Definition take_snap (s : state) : snap :=
@@ -253,13 +314,13 @@ Fixpoint rec_push (k : nat) (s : state) : state :=
   end.
 
 (* native call of a Go function from JS with [n] arguments already pushed (nativeFuncObject.vmCall) *)
-Definition native_call (n : Z) (f : state -> state * outcome) (s : state) : state * outcome :=
+Definition native_call (ex : node -> state -> state * outcome) (n : Z) (f : state -> state * outcome) (s : state) : state * outcome :=
   let s1 := add_sp (2 + n) s in
-  if over lim s1 then raise PSO s1 else
+  if over lim s1 then raise0 PSO s1 else
   let s2 := set_sb (sp s1 - n) (set_prg false (push_ctx s1)) in
   match f s2 with
   | (s3, ONorm) => (set_sp (sp s) (pop_ctx s3), ONorm)
-  | (s3, OPanic p) => raise p s3
+  | (s3, OPanic p) => raise ex true p s3
   | (s3, _) => (s3, OStuck)
   end.
 
@@ -332,7 +393,7 @@ Definition probe_act (s2 : state) : state * outcome :=
 
 Definition call_node (body : list node) (s : state) : state * outcome :=
   let s1 := add_sp 2 s in
-  if over lim s1 then raise PSO s1 else
+  if over lim s1 then raise0 PSO s1 else
   match run_items ex body (call_enter s) with
   | (s3, ONorm) => (set_sp (sp s) (pop_ctx s3), ONorm)
   | r => r
@@ -360,7 +421,7 @@ Definition try_finish (fin : list node) (s : state) : state * outcome :=
 (* the finally block entered with a pending exception: leaveFinally pops the frame and re-throws *)
 Definition try_dofin (fin : list node) (s2 : state) (p : payload) : state * outcome :=
   match run_items ex fin s2 with
-  | (s3, ONorm) => raise p (pop_try s3)
+  | (s3, ONorm) => raise ex false p (pop_try s3)
   | r => r
   end.
 
@@ -385,7 +446,7 @@ Definition try_node (body cat fin : list node) (hc hf : bool) (s : state) : stat
 
 (* iterNext: iteratorRecord.step = vm.try(next()) ; the loop of a for-of statement with k elements left *)
 Fixpoint forof_loop (next body : list node) (k : nat) (s : state) : state * outcome :=
-  if intr s then raise PIntr s else
+  if intr s then raise0 PIntr s else
   match vm_try (reentry ex 0 next) s with
   | (s3, ONorm) =>
       match k with
@@ -396,16 +457,16 @@ Fixpoint forof_loop (next body : list node) (k : nat) (s : state) : state * outc
           | r => r
           end
       end
-  | (s3, OUnwound p) => raise p (set_its (tl (its s3)) s3)     (* next() threw: item dropped, not closed *)
-  | (s3, OPanic p) => raise p s3
+  | (s3, OUnwound p) => raise ex false p (set_its (tl (its s3)) s3)     (* next() threw: item dropped, not closed *)
+  | (s3, OPanic p) => raise ex true p s3
   | (s3, _) => (s3, OStuck)
   end.
 
-Definition forof_node (id : nat) (next : list node) (n : nat) (body : list node) (s : state) : state * outcome :=
+Definition forof_node (id : nat) (next : list node) (n : nat) (body : list node) (ret : option (list node)) (s : state) : state * outcome :=
   (* iterate: getIterator calls [Symbol.iterator]() (a JS function with an empty body) *)
   match reentry ex 0 [] (add_sp 1 s) with
-  | (s1, OPanic p) => raise p s1
-  | (s1, ONorm) => forof_loop next body n (set_its (id :: its s1) (add_sp (-1) s1))
+  | (s1, OPanic p) => raise ex true p s1
+  | (s1, ONorm) => forof_loop next body n (set_its ((id, ret) :: its s1) (add_sp (-1) s1))
   | (s1, _) => (s1, OStuck)
   end.
 
@@ -424,23 +485,23 @@ Definition gen_resume (extra : Z) (seg : list node) (s3 : state) : state * outco
 Definition gen_node (seg : list node) (s : state) : state * outcome :=
   (* gen_k().next(): creation ... *)
   match gen_enter (add_sp 2 s) with
-  | (s1, OPanic p) => raise p s1
+  | (s1, OPanic p) => raise ex true p s1
   | (s1, ONorm) =>
       (* the prologue runs to the initial yield; suspend; popTryFrame; popCtx; the generator object replaces the callee;
          then the native next() *)
-      native_call 0 (gen_resume 0 seg) (set_sp (sp s) (gen_leave s1))
+      native_call ex 0 (gen_resume 0 seg) (set_sp (sp s) (gen_leave s1))
   | (s1, _) => (s1, OStuck)
   end.
 
 Definition async_node (seg1 seg2 : list node) (s : state) : state * outcome :=
   match gen_enter (add_sp 2 s) with
-  | (s1, OPanic p) => raise p s1
+  | (s1, OPanic p) => raise ex true p s1
   | (s1, ONorm) =>
       match loop_out (run_items ex seg1 s1) with
       | (s2, ONorm) => (set_sp (sp s) (set_jq (jq s2 ++ [JAsync seg2]) (gen_leave s2)), ONorm)
       | (s2, OPanic p) =>
           if catchable p then (set_sp (sp s) (pop_ctx (pop_try s2)), ONorm)
-          else raise p (gen_abort s2 p)
+          else raise ex true p (gen_abort s2 p)
       | r => r
       end
   | (s1, _) => (s1, OStuck)
@@ -485,12 +546,12 @@ Definition nrun_rec (swallow : bool) (body : list node) (s : state) : state * ou
 Definition node_step (nd : node) (s : state) : state * outcome :=
   match nd with
   | Effect n => (set_log (log s ++ [n]) s, ONorm)
-  | Throw => raise PCatch s
-  | Probe => native_call 0 probe_act s
+  | Throw => raise ex false PCatch s
+  | Probe => native_call ex 0 probe_act s
   | Rec =>
       match lim with
       | None => (s, OStuck)
-      | Some m => raise PSO (rec_push (S m - length (cs s)) s)
+      | Some m => raise0 PSO (rec_push (S m - length (cs s)) s)
       end
   | Call body => call_node body s
   | Try body cat fin hc hf => try_node body cat fin hc hf s
@@ -507,14 +568,14 @@ Definition node_step (nd : node) (s : state) : state * outcome :=
   | Getter body =>
       match reentry ex 0 body (add_sp 1 s) with
       | (s1, ONorm) => (add_sp (-1) s1, ONorm)
-      | (s1, OPanic p) => raise p s1
+      | (s1, OPanic p) => raise ex true p s1
       | (s1, _) => (s1, OStuck)
       end
-  | Native acts => native_call 0 (run_acts ex acts) s
-  | ForOf id next n body => forof_node id next n body s
+  | Native acts => native_call ex 0 (run_acts ex acts) s
+  | ForOf id next n body ret => forof_node id next n body ret s
   | Gen seg => gen_node seg s
   | Async seg1 seg2 => async_node seg1 seg2 s
-  | Then body => native_call 1 (fun s2 => (set_jq (jq s2 ++ [JThen body]) s2, ONorm)) s
+  | Then body => native_call ex 1 (fun s2 => (set_jq (jq s2 ++ [JThen body]) s2, ONorm)) s
   | NCallable swallow body =>
       match run_wrapped body s with
       | (s1, ONorm, None) => (s1, ONorm)
